@@ -771,7 +771,10 @@ def py_is(I, a, b):
             return False
         return True     # interned constants in practice; noted as assumption
     if isinstance(a, BoundMethod) and isinstance(b, BoundMethod):
-        return False if not (a.func is b.func and a.self_obj is b.self_obj) else OutOfSubsetRaise('`is` on bound methods')
+        # a BoundMethod value is created by every attribute access (interp.getattr / bind_class_attr) and never copied, exactly
+        # as CPython creates a new method object per access: two values that are alive at the same time are the same
+        # CPython object iff they are the same value here (C07 remove.bound-method: `obj.m is obj.m` is False)
+        return a is b
     if is_sym(a) or is_sym(b):
         raise OutOfSubset('`is` on symbolic scalars')
     return a is b
